@@ -437,10 +437,10 @@ pub fn run(ctx: &Ctx) -> HResult<()> {
 	let ev = &ctx.ev;
 	ev.rule("chains past the NRD hard fork with blocks rich in coinbase spends at their maturity threshold (T-1 via immature spends, T, T+1), height-locked kernels (lock = height+1, height, height-1..) and NRD kernels sharing an excess (relative heights 1..3), placed on the main chain, on fork runs that win or lose (so the first instance / the coinbase may sit on the other side of the fork point or be rewound away) and across reopen; each block's verdict comes from the branch-local replay model; pool probes (fresh pool per probe, stem and fluff) at head heights around each threshold; non-trivial = boundary placement (T-1 or T, or first/absent on this fork) on a fork or in a block that caused a reorg, and pool probes within one block of a threshold; distinct by tag");
 	ev.assume("NRD rule modelled as: refused iff the latest NRD kernel with the same excess on the same branch sits at height > H - relative_height (two in one block always refused); NRD kernels are legal from header version 4 (height 9 on AutomatedTesting)");
-	if let Some((case, f)) = pbt_proc(ctx, "chain", ctx.n(480, 8000), 16) {
+	if let Some((case, f)) = pbt_proc(ctx, "chain", ctx.n(800, 8000), 16) {
 		ctx.report("chain", &f.sig, case, &f.msg);
 	}
-	if let Some((case, f)) = pbt_proc(ctx, "pool", ctx.n(320, 5000), 16) {
+	if let Some((case, f)) = pbt_proc(ctx, "pool", ctx.n(480, 5000), 16) {
 		ctx.report("pool", &f.sig, case, &f.msg);
 	}
 	let s = sample_one(ctx.derive_seed("sample", 0), &case_strategy(4));
